@@ -46,7 +46,7 @@ def check(run, prog, tier):
         raise AnalysisError("SimpleEventgroup / SimpleService methods vanished")
     run.analysed(ns, na, no, sub, uns, cs, cu, cyc)
     me = ("self", EG)
-    eng = engine(prog, InlineOnly(names=(), props=False, max_depth=0, unroll=2))
+    eng = engine(prog, InlineOnly(names=(), props=False, max_depth=0, unroll=3 if tier == "thorough" else 2))
     mt = enum_members(prog, "header.SOMEIPMessageType")
     assign = "sd._SessionStorage.assign_outgoing"
     send = prog.lookup_method(SVC, "send")
